@@ -2,25 +2,22 @@
 C10 — DHCPv4 never leases one address to two clients; lease table survives restart.
 
 Property theorems only (helper lemmas live in AGH/Lemmas/DHCP*.lean).  The
-model (`AGH/Model/DHCP.lean`) transcribes `internal/dhcpd/v4_unix.go` after the
-repairs F5–F7, F16/F17 and a691f53 (R5); `Reachable O c s` are the states it reaches from the
-empty table by ANY history of DISCOVER / REQUEST (selecting, init-reboot, renew)
-/ DECLINE / RELEASE / static add, update, remove / sleep / restart from ANY
-hardware addresses (6, 8 and 20 bytes mixed; others are dropped as the code
-drops them), for ANY hostname oracle `O` and ANY configuration `c`.
+model (`AGH/Model/DHCP.lean`) transcribes `internal/dhcpd/v4_unix.go`, `db.go`,
+`config.go Validate` as they are after the repairs F5–F7, F16/F17, a691f53 (R5),
+410da26 (R3) and 2820039 (R4); `Reachable O c s` are the states it reaches from
+the empty table by ANY history of DISCOVER / REQUEST (selecting, init-reboot,
+renew) / DECLINE / RELEASE / static add, update, remove / sleep / restart /
+reorder (the unstable sort of `writeDB`), from ANY hardware addresses, for ANY
+hostname oracle `O` and ANY configuration `c`.
 
-Two clauses of the property are violated by the code (and by the model), both
-in hostname handling — R3 (`commitLease` falls back to the generated hostname
-without a uniqueness check) and R4 (`ResetLeases` renames unnamed dynamic leases
-on load).  For these the full statements
-
-  ∀ reachable s, ∀ l ∈ s.leases, l.host ≠ [] → s.hosts l.host = some l.id          -- index complete
-  ∀ reachable s, Mirror s → (restart O c s).leases.map Lease.view ~ s.leases.map Lease.view
-
-are false: see `C10_counterexample_*`; `*_partial` give what holds under the
-explicit hypothesis that excludes the failing pattern.
+`c.fixR3 = true`, `c.fixR4 = true` say "the tree as it is" (the defaults of
+`Conf`, and what the driver runs for /repo: the harness reports the level).
+Every clause of the property is a theorem for that variant.  The variant with a
+switch off is the code before 410da26 / 2820039: `C10_counterexample_*_before_fix`
+show what was wrong, `*_partial` what held all the same.
 -/
-import AGH.Lemmas.DHCPHostIdx
+import AGH.Lemmas.DHCPAnswers
+import AGH.Lemmas.LeaseDBCodec
 namespace AGH.C10
 open AGH
 
@@ -125,23 +122,43 @@ theorem C10_ip_index_agrees {O : Oracle} {c : Conf} {s : State} (hr : Reachable 
 theorem C10_host_index_sound {O : Oracle} {c : Conf} {s : State} (hr : Reachable O c s) (h : Bytes) (id : Nat)
     (he : s.hosts h = some id) : ∃ l ∈ s.leases, l.id = id ∧ l.host = h := hr.inv.hostsSound h id he
 
+/-! ### the answers given to DNS (`dhcpd.Interface`: HostByIP, MACByIP, IPByHost) -/
+
+/-- `HostByIP` answers the name of the lease on that address and `MACByIP` its
+hardware address while it is a reservation or unexpired; both answer nothing
+for an address without a lease. -/
+theorem C10_dns_answers_by_address {O : Oracle} {c : Conf} {s : State} (hr : Reachable O c s) :
+    (∀ l ∈ s.leases, s.hostByIP l.ip = l.host ∧
+      s.macByIP l.ip = (if l.static || decide (s.now < l.exp) then l.mac else [])) ∧
+    (∀ ip, (∀ l ∈ s.leases, l.ip ≠ ip) → s.hostByIP ip = [] ∧ s.macByIP ip = []) :=
+  ⟨fun _ hl => answers_at_lease hr.inv hl, fun _ ha => answers_absent hr.inv ha⟩
+
+/-- An address `IPByHost` answers belongs to a lease of the table that carries
+that name; a name no lease carries is not answered. -/
+theorem C10_dns_answer_by_name_sound {O : Oracle} {c : Conf} {s : State} (hr : Reachable O c s) (n : Bytes) :
+    (s.ipByHost n ≠ 0 → ∃ l ∈ s.leases, l.host = n ∧ l.ip = s.ipByHost n) ∧
+    ((∀ l ∈ s.leases, l.host ≠ n) → s.ipByHost n = 0) :=
+  ⟨fun hne => ipByHost_sound hr.inv hne rfl, fun ha => ipByHost_absent hr.inv ha⟩
+
 /-! ### the database file -/
 
 /-- Every operation other than a restart ends with `dbStore` or changes neither
 table nor file — including DECLINE and a failing static-lease call. -/
 theorem C10_store_or_unchanged {O : Oracle} {c : Conf} {s : State} (hr : Reachable O c s) {op : Op}
-    (hne : op ≠ .restart) :
+    (hne : op ≠ .restart) (hnr : ∀ d, op ≠ .reorder d) :
     (∃ x : State, (step O c s op).1 = x.store) ∨
     ((step O c s op).1.leases = s.leases ∧ (step O c s op).1.disk = s.disk) :=
-  step_store_or_same hr.inv hne
+  step_store_or_same hr.inv hne hnr
 
-/-- The file lists exactly the leases in memory after every operation other
-than a restart, once it did so before. -/
+/-- The file lists exactly the leases in memory (each once, in whatever order
+the unstable sort of `writeDB` left them: `Op.reorder`) after every operation
+other than a restart, once it did so before. -/
 theorem C10_disk_mirror_step {O : Oracle} {c : Conf} {s : State} (hr : Reachable O c s) {op : Op}
     (hne : op ≠ .restart) (hm : Mirror s) : Mirror (step O c s op).1 := Mirror_step hr.inv hm hne
 
-/-- Along every history without a restart the file lists exactly the leases in memory. -/
-theorem C10_disk_mirror (O : Oracle) (c : Conf) (ops : List Op)
+/-- Along every history without a restart the file lists exactly the leases in
+memory — for either code variant (with restarts: `C10_disk_mirror`). -/
+theorem C10_disk_mirror_without_restart (O : Oracle) (c : Conf) (ops : List Op)
     (hnr : ∀ op ∈ ops, op ≠ .restart) : Mirror (run O c State.init ops) := by
   suffices H : ∀ (ops : List Op) (s : State), Inv c s → Mirror s →
       (∀ op ∈ ops, op ≠ .restart) → Mirror (run O c s ops) from H ops _ (Inv_init c) Mirror_init hnr
@@ -157,8 +174,8 @@ theorem C10_disk_mirror (O : Oracle) (c : Conf) (ops : List Op)
 /-- What is on disk is a permutation of what is in memory: each lease once. -/
 theorem C10_disk_lists_each_lease_once {s : State} (hm : Mirror s) {d : List DLease} (hd : s.disk = some d) :
     d.Perm (s.leases.map Lease.toDisk) := by
-  rcases hm with h | ⟨h, _⟩
-  · rw [hd] at h; cases h; exact sortByHost_perm _
+  rcases hm with ⟨d', h, hp⟩ | ⟨h, _⟩
+  · rw [hd] at h; cases h; exact hp
   · rw [hd] at h; cases h
 
 /-! ### the monitor of the check, on the model -/
@@ -176,12 +193,13 @@ theorem C10_model_meets_spec {O : Oracle} {c : Conf} {s : State} (hc : validate 
     {op : Op} :
     specCore c (obsOf c s) op (step O c s op).2 (obsOf c (step O c s op).1) = true ∧
     reservationsKept (obsOf c s) op (obsOf c (step O c s op).1) = true ∧
-    (op ≠ .restart → (diskMirror (obsOf c s) && !diskMirror (obsOf c (step O c s op).1)) = false) ∧
+    (op ≠ .restart → (∀ d, op ≠ .reorder d) →
+      (diskMirror (obsOf c s) && !diskMirror (obsOf c (step O c s op).1)) = false) ∧
     hostIndexSound (obsOf c (step O c s op).1) = true :=
-  ⟨specCore_step hc hpos hr.inv, obs_reservationsKept hr.inv, fun hne => obs_disk_step hr.inv hne,
+  ⟨specCore_step hc hpos hr.inv, obs_reservationsKept hr.inv, fun hne hnr => obs_disk_step hr.inv hne hnr,
     obs_hostIndexSound (Inv_step hr.inv)⟩
 
-/-! ### R3 — the generated hostname is not checked for uniqueness (unrepaired)
+/-! ### R3 — before 410da26 the generated hostname was not checked for uniqueness
 
 Full statement (false): `∀ reachable s, ∀ l ∈ s.leases, l.host ≠ [] → s.hosts l.host = some l.id`
 ("every named lease is what its name resolves to"), hence also "a restart restores the same table". -/
@@ -189,16 +207,16 @@ Full statement (false): `∀ reachable s, ∀ l ∈ s.leases, l.host ≠ [] → 
 /-- A reservation named `0-0-0-10`, a client that is offered 0.0.0.10 and
 requests it without a hostname: two leases carry the same name, the index entry
 of the reservation now points to the client, and the monitor names the cause. -/
-theorem C10_counterexample_generated_hostname_not_unique :
-    validate c0 = true ∧
-    (run O0 c0 State.init opsR3).leases.map (fun l => (l.ip, l.static, l.host)) =
+theorem C10_counterexample_generated_hostname_not_unique_before_fix :
+    validate c0old = true ∧
+    (run O0 c0old State.init opsR3).leases.map (fun l => (l.ip, l.static, l.host)) =
       [(20, true, name10), (10, false, name10)] ∧
-    (run O0 c0 State.init opsR3).hosts name10 = some 1 ∧
-    (∃ l ∈ (run O0 c0 State.init opsR3).leases, l.host ≠ [] ∧ (run O0 c0 State.init opsR3).hosts l.host ≠ some l.id) ∧
-    specWhy c0 (obsOf c0 (run O0 c0 State.init (opsR3.take 2))) (.request mB 2 true 10 0 [])
-      (step O0 c0 (run O0 c0 State.init (opsR3.take 2)) (.request mB 2 true 10 0 [])).2
-      (obsOf c0 (run O0 c0 State.init opsR3)) = some "generated-hostname-not-unique@request" := by
-  refine ⟨c0_valid, by decide, by decide, by decide, by decide⟩
+    (run O0 c0old State.init opsR3).hosts name10 = some 1 ∧
+    (∃ l ∈ (run O0 c0old State.init opsR3).leases, l.host ≠ [] ∧ (run O0 c0old State.init opsR3).hosts l.host ≠ some l.id) ∧
+    specWhy c0old (obsOf c0old (run O0 c0old State.init (opsR3.take 2))) (.request mB 2 true 10 0 [])
+      (step O0 c0old (run O0 c0old State.init (opsR3.take 2)) (.request mB 2 true 10 0 [])).2
+      (obsOf c0old (run O0 c0old State.init opsR3)) = some "generated-hostname-not-unique@request" := by
+  refine ⟨c0old_valid, by decide, by decide, by decide, by decide⟩
 
 /-- What does hold: the hostname index stays complete over every step that is
 not an instance of R3 (`R3at`: a REQUEST commits a still unnamed lease, the
@@ -207,7 +225,7 @@ another lease) — DISCOVER, the other REQUESTs, DECLINE, RELEASE, the static-le
 API and restart included. -/
 theorem C10_host_index_complete_step_partial {O : Oracle} {c : Conf} {s : State} (hr : Reachable O c s)
     (hcpl : HostComplete s) {op : Op} (hno : ¬ R3at O c s op) :
-    HostComplete (step O c s op).1 := (Inv2_step ⟨hr.inv, hcpl⟩ hno).2
+    HostComplete (step O c s op).1 := (Inv2_step ⟨hr.inv, hcpl⟩ (.inr hno)).2
 
 /-- Along every history without an instance of R3, every named lease is what its name resolves to. -/
 theorem C10_host_index_complete_partial (O : Oracle) (c : Conf) (ops : List Op)
@@ -215,51 +233,127 @@ theorem C10_host_index_complete_partial (O : Oracle) (c : Conf) (ops : List Op)
   (run_inv2 ops _ ⟨Inv_init c, by intro l hl; cases hl⟩ hno).2
 
 /-- … and the next restart loses one of the two leases although the file listed both. -/
-theorem C10_counterexample_restart_drops_duplicate_hostname :
-    Mirror (run O0 c0 State.init opsR3) ∧
-    (run O0 c0 State.init opsR3).leases.length = 2 ∧
-    (restart O0 c0 (run O0 c0 State.init opsR3)).leases.map (fun l => (l.ip, l.static)) = [(20, true)] := by
-  refine ⟨.inl (by decide), by decide, by decide⟩
+theorem C10_counterexample_restart_drops_duplicate_hostname_before_fix :
+    Mirror (run O0 c0old State.init opsR3) ∧
+    (run O0 c0old State.init opsR3).leases.length = 2 ∧
+    (restart O0 c0old (run O0 c0old State.init opsR3)).leases.map (fun l => (l.ip, l.static)) = [(20, true)] := by
+  refine ⟨Mirror_of_eq (by decide), by decide, by decide⟩
 
-/-! ### R4 — `ResetLeases` renames unnamed dynamic leases (unrepaired)
+/-! ### R4 — before 2820039 `ResetLeases` renamed unnamed dynamic leases
 
 Full statement (false): `∀ reachable s, Mirror s → (restart O c s).leases.map Lease.view` is a
 permutation of `s.leases.map Lease.view`, with the same `HostByIP` / `IPByHost` answers. -/
 
 /-- One DISCOVER, then a restart: the file mirrors the table, yet the reloaded
 lease has a hostname it did not have, and `IPByHost` answers a name it did not know. -/
-theorem C10_counterexample_restart_names_unnamed_lease :
-    validate c0 = true ∧ Mirror (run O0 c0 State.init opsR4) ∧
-    (run O0 c0 State.init opsR4).leases.map (·.host) = [[]] ∧
-    (restart O0 c0 (run O0 c0 State.init opsR4)).leases.map (·.host) = [name10] ∧
-    (obsOf c0 (run O0 c0 State.init opsR4)).ipByHost name10 = none ∧
-    (obsOf c0 (restart O0 c0 (run O0 c0 State.init opsR4))).ipByHost name10 = some 10 ∧
-    specWhy c0 (obsOf c0 (run O0 c0 State.init opsR4)) .restart (Reply.api "ok")
-      (obsOf c0 (restart O0 c0 (run O0 c0 State.init opsR4))) = some "restart-names-unnamed-lease" := by
-  refine ⟨c0_valid, .inl (by decide), by decide, by decide, by decide, by decide, by decide⟩
+theorem C10_counterexample_restart_names_unnamed_lease_before_fix :
+    validate c0old = true ∧ Mirror (run O0 c0old State.init opsR4) ∧
+    (run O0 c0old State.init opsR4).leases.map (·.host) = [[]] ∧
+    (restart O0 c0old (run O0 c0old State.init opsR4)).leases.map (·.host) = [name10] ∧
+    (obsOf c0old (run O0 c0old State.init opsR4)).ipByHost name10 = none ∧
+    (obsOf c0old (restart O0 c0old (run O0 c0old State.init opsR4))).ipByHost name10 = some 10 ∧
+    specWhy c0old (obsOf c0old (run O0 c0old State.init opsR4)) .restart (Reply.api "ok")
+      (obsOf c0old (restart O0 c0old (run O0 c0old State.init opsR4))) = some "restart-names-unnamed-lease" := by
+  refine ⟨c0old_valid, Mirror_of_eq (by decide), by decide, by decide, by decide, by decide, by decide⟩
 
 /-- If the generated name is taken, the restart drops a lease — here the reservation. -/
-theorem C10_counterexample_restart_drops_lease_generated_name_taken :
-    Mirror (run O0 c0 State.init opsR4b) ∧
-    (run O0 c0 State.init opsR4b).leases.map (fun l => (l.ip, l.static, l.host)) = [(20, true, name10), (10, false, [])] ∧
-    (restart O0 c0 (run O0 c0 State.init opsR4b)).leases.map (fun l => (l.ip, l.static, l.host)) = [(10, false, name10)] ∧
-    specWhy c0 (obsOf c0 (run O0 c0 State.init opsR4b)) .restart (Reply.api "ok")
-      (obsOf c0 (restart O0 c0 (run O0 c0 State.init opsR4b))) = some "restart-drops-lease-generated-name-taken" := by
-  refine ⟨.inl (by decide), by decide, by decide, by decide⟩
+theorem C10_counterexample_restart_drops_lease_generated_name_taken_before_fix :
+    Mirror (run O0 c0old State.init opsR4b) ∧
+    (run O0 c0old State.init opsR4b).leases.map (fun l => (l.ip, l.static, l.host)) = [(20, true, name10), (10, false, [])] ∧
+    (restart O0 c0old (run O0 c0old State.init opsR4b)).leases.map (fun l => (l.ip, l.static, l.host)) = [(10, false, name10)] ∧
+    specWhy c0old (obsOf c0old (run O0 c0old State.init opsR4b)) .restart (Reply.api "ok")
+      (obsOf c0old (restart O0 c0old (run O0 c0old State.init opsR4b))) = some "restart-drops-lease-generated-name-taken" := by
+  refine ⟨Mirror_of_eq (by decide), by decide, by decide, by decide⟩
 
-/-- What does hold (excludes R3 and R4 by hypothesis): when the file mirrors the
-table, reservations lie in the subnet, every dynamic lease carries a name that
-normalisation leaves alone and no two leases share a name, a restart restores
-exactly the table (every lease once, in file order), and the file mirrors it. -/
+/-- What does hold on the unrepaired tree (excludes R3 and R4 by hypothesis):
+when the file mirrors the table (in ANY order — `slices.SortFunc` is not stable
+beyond 12 records), reservations lie in the subnet, loading leaves the name of
+every dynamic lease alone and no two leases share a name, a restart restores
+exactly the records of the file, every lease once. -/
 theorem C10_restart_restores_table_partial {O : Oracle} {c : Conf} {s : State} (hr : Reachable O c s)
     (hm : Mirror s)
     (hsub : ∀ l ∈ s.leases, l.static = true → inSubnet c l.ip = true)
-    (hnamed : ∀ l ∈ s.leases, l.static = false → l.host ≠ [] ∧ O.norm l.host = some l.host ∧ O.valid l.host = true)
+    (hnamed : ∀ l ∈ s.leases, l.static = false → loadHost O c l.toDisk = l.host)
     (huniq : ∀ l₁ ∈ s.leases, ∀ l₂ ∈ s.leases, l₁.host = l₂.host → l₁.host ≠ [] → l₁ = l₂) :
-    (restart O c s).leases.map Lease.toDisk = sortByHost (s.leases.map Lease.toDisk) ∧
-    ((restart O c s).leases.map Lease.toDisk).Perm (s.leases.map Lease.toDisk) := by
+    ((restart O c s).leases.map Lease.toDisk).Perm (s.leases.map Lease.toDisk) ∧
+    (∀ d, s.disk = some d → (restart O c s).leases.map Lease.toDisk = d) := by
   have h := restart_restores hr.inv hm hsub hnamed huniq
-  exact ⟨h, h ▸ sortByHost_perm _⟩
+  exact ⟨h.1, h.2.2⟩
+
+/-! ### the tree as it is (`fixR3 = fixR4 = true`): hostname index, restart, file
+
+The clauses about the hostname index, the restart and the file, at full
+strength, for every history. -/
+
+/-- For every history (any tree): every hostname in the table and in the file
+is empty or left alone by normalisation + validation, and every reservation
+lies in the subnet. -/
+theorem C10_names_normalised_reservations_in_subnet {O : Oracle} {c : Conf} (ho : OracleOK O) (ops : List Op) :
+    Inv3 O c (run O c State.init ops) := run_inv3 ho ops _ (Inv3_init O c)
+
+/-- Along EVERY history every named lease is what its name resolves to. -/
+theorem C10_host_index_complete {O : Oracle} {c : Conf} (hf : c.fixR3 = true) (ops : List Op) :
+    HostComplete (run O c State.init ops) :=
+  (run_inv2 ops _ ⟨Inv_init c, by intro l hl; cases hl⟩ (NoR3_of_fix hf ops _)).2
+
+/-- A restart in ANY reachable state whose file mirrors the
+table restores exactly that table (every lease once, same MAC, address, name,
+kind and expiry), and the file still mirrors it. -/
+theorem C10_restart_restores_table {O : Oracle} {c : Conf} {s : State} (ho : OracleOK O)
+    (hf3 : c.fixR3 = true) (hf4 : c.fixR4 = true) (hr : Reachable O c s) (hm : Mirror s) :
+    ((restart O c s).leases.map Lease.toDisk).Perm (s.leases.map Lease.toDisk) ∧ Mirror (restart O c s) :=
+  restart_restores_fixed ho hf4 (hr.all ho hf3).1 (hr.all ho hf3).2 hm
+
+/-- A restart gives the same hostname/address answers to DNS
+as before it (`HostByIP` for every address, `IPByHost` for every name). -/
+theorem C10_restart_same_answers {O : Oracle} {c : Conf} {s : State} (ho : OracleOK O)
+    (hf3 : c.fixR3 = true) (hf4 : c.fixR4 = true) (hr : Reachable O c s) (hm : Mirror s) :
+    (∀ ip, (restart O c s).hostByIP ip = s.hostByIP ip) ∧
+    (∀ n, n ≠ [] → (restart O c s).ipByHost n = s.ipByHost n) := by
+  have hall := hr.all ho hf3
+  have hres := restart_restores_fixed ho hf4 hall.1 hall.2 hm
+  have h2' : Inv2 c (restart O c s) := by
+    have := Inv2_step (O := O) (op := .restart) hall.1 (.inl hf3)
+    exact this
+  exact answers_eq_of_perm hall.1 h2' hres.1
+
+/-- Every named lease is answered by `IPByHost` with its address, along every history. -/
+theorem C10_dns_answer_by_name_complete {O : Oracle} {c : Conf} (hf : c.fixR3 = true) (ops : List Op)
+    {l : Lease} (hl : l ∈ (run O c State.init ops).leases) (hne : l.host ≠ []) :
+    (run O c State.init ops).ipByHost l.host = l.ip :=
+  ipByHost_complete (run_inv2 ops _ ⟨Inv_init c, by intro l hl; cases hl⟩ (NoR3_of_fix hf ops _)) hl hne
+
+/-- The file lists exactly the leases in memory after every
+step of EVERY history — restarts included. -/
+theorem C10_disk_mirror {O : Oracle} {c : Conf} (ho : OracleOK O) (hf3 : c.fixR3 = true)
+    (hf4 : c.fixR4 = true) (ops : List Op) : Mirror (run O c State.init ops) :=
+  run_mirror_fixed ho hf3 hf4 ops _ ⟨Inv_init c, by intro l hl; cases hl⟩ (Inv3_init O c) Mirror_init
+
+/-! ### the bytes of `leases.json`
+
+`encodeDB` / `decodeDB` (`AGH/Model/LeaseDB.lean`) model `json.Marshal` of
+`dataLeases` and `json.Unmarshal` + `toLease` byte by byte; on every operation
+of every run the real file is compared with `encodeDB` of the model's records
+and `decodeDB` of the real bytes with what the real `dbLoad` parsed. -/
+
+/-- The hostname field round-trips: for ANY ASCII hostname (quotes, backslashes,
+control characters, `<`, `>`, `&` included) the decoder reads exactly the
+hostname back from what the encoder wrote and stops behind the closing quote. -/
+theorem C10_leasedb_hostname_roundtrip (h rest : Bytes) (hb : ∀ b ∈ h, b < 128) :
+    readString (jsonString h ++ rest) = some (h, rest) := readString_jsonString h rest hb
+
+/-- `decode (encode t) = t` on a table with every kind of record the code
+writes: a dynamic lease with an escaped hostname, a static lease (empty
+`expires`) with an 8-byte hardware address, an offer with the zero expiry; and
+on the empty table. -/
+theorem C10_leasedb_roundtrip_witness :
+    let t : List DLease :=
+      [{ mac := [2, 0, 0, 0, 0, 10], ip := 3232238180, host := [97, 60, 98, 62, 38, 34, 92, 1, 127], static := false, exp := 1010 },
+       { mac := [2, 0, 0, 0, 0, 1, 7, 7], ip := 167772165, host := [], static := true, exp := 0 },
+       { mac := [171, 0, 0, 0, 0, 1], ip := 167772166, host := [120], static := false, exp := 0 }]
+    decodeDB (parseExpAt 946684800) (encodeDB (fmtExpAt 946684800) t) = some t ∧
+    decodeDB (parseExpAt 946684800) (encodeDB (fmtExpAt 946684800) []) = some [] := by
+  decide +kernel
 
 /-! ### non-vacuity -/
 
@@ -303,9 +397,29 @@ example :
     let s := run O0 c0 State.init (opsOK.take 5)
     Mirror s ∧ s.leases.length = 3 ∧
     (∀ l ∈ s.leases, l.static = true → inSubnet c0 l.ip = true) ∧
-    (∀ l ∈ s.leases, l.static = false → l.host ≠ [] ∧ O0.norm l.host = some l.host ∧ O0.valid l.host = true) ∧
+    (∀ l ∈ s.leases, l.static = false → loadHost O0 c0 l.toDisk = l.host) ∧
     (∀ l₁ ∈ s.leases, ∀ l₂ ∈ s.leases, l₁.host = l₂.host → l₁.host ≠ [] → l₁ = l₂) :=
-  ⟨.inl (by decide), by decide, by decide, by decide, by decide⟩
+  ⟨Mirror_of_eq (by decide), by decide, by decide, by decide, by decide⟩
+
+/-- The tree as it is, on the two witness histories of R3 and R4: R3 — the client stays
+unnamed instead of taking the reservation's name, and the restart keeps both
+leases; R4 — the offered lease is still unnamed after the restart. -/
+example :
+    (run O0 c0 State.init opsR3).leases.map (fun l => (l.ip, l.host)) =
+      [(20, name10), (10, [])] ∧
+    (restart O0 c0
+      (run O0 c0 State.init opsR3)).leases.map (fun l => (l.ip, l.host)) =
+      [(10, []), (20, name10)] ∧
+    (restart O0 c0
+      (run O0 c0 State.init opsR4)).leases.map (·.host) = [[]] := by
+  refine ⟨by decide, by decide, by decide⟩
+
+/-- The hypotheses of the restart theorems are satisfiable: the witness oracle is
+`OracleOK`, `c0` is the tree as it is, and the busy table is mirrored by its file. -/
+example : OracleOK O0 ∧ c0.fixR3 = true ∧ c0.fixR4 = true ∧ Mirror (run O0 c0 State.init opsOK) ∧
+    (run O0 c0 State.init opsOK).leases.length = 4 :=
+  ⟨⟨fun x n h _ => by simp only [O0, Option.some.injEq] at h ⊢, fun _ => ⟨rfl, rfl⟩⟩, rfl, rfl,
+    Mirror_of_eq (by decide), by decide⟩
 
 /-- `HostComplete` holds in a non-trivial reachable state (three named leases). -/
 example : HostComplete (run O0 c0 State.init (opsOK.take 5)) ∧
